@@ -287,8 +287,31 @@ def _generate(sub, configs):
         out.extend(cases)
 
 
+def selftest(ctx):
+    """Binding self-test: a correct synthetic observation passes; a wrong tree, a reported conflict, a leftover file on
+    disk and a wrong fixture are each flagged by TLC."""
+    c = {"law": "L2", "fl": "ids", "base": ["a"], "dT": [], "dO": [{"op": "mod", "i": "a"}]}
+    a0 = [{"p": "a", "k": "file", "c": "a.0", "x": False}]
+    a1 = [{"p": "a", "k": "file", "c": "a.1", "x": False}]
+    good = {"base": a0, "this": a0, "other": a1, "tree": a1, "disk": a1, "conflicts": []}
+    probes = [("ok", good, None),
+              ("tree", dict(good, tree=a0), "L2.tree"),
+              ("conflicts", dict(good, conflicts=["text conflict: a"]), "L2.conflicts"),
+              ("disk", dict(good, disk=a1 + [{"p": "a.OTHER", "k": "file", "c": "a.1", "x": False}]), "L2.disk"),
+              ("fixture", dict(good, other=a0), "fixture")]
+    rows = [{"c": c, "impl": impl} for _, impl, _ in probes]
+    got = {id(r): v for r, v in _judge(ctx, rows)}
+    for (name, _, want), r in zip(probes, rows):
+        v = got.get(id(r))
+        have = set() if v is None else set(v["failed"]) | (set() if v["fixture"] else {"fixture"})
+        if (want is None and have) or (want is not None and want not in have):
+            ctx.machinery("binding self-test: probe %r judged %s, expected %s" % (name, sorted(have), want))
+    ctx.cov["traces_validated_against_impl"] -= len(rows)       # synthetic rows are not implementation traces
+
+
 def run(ctx):
     env.init()
+    selftest(ctx)
     both = '{"ids", "paths"}'
     if ctx.quick:
         consts = {"Bases": "{%s}" % FULL, "MaxSide": 2, "MaxPair": 1, "MaxSum": 2}
